@@ -34,6 +34,7 @@ ISetNorm(o, s) ==
 ISetPre(o, s) == /\ (o.op \in {"union!", "intersection!", "difference!"} => o.v # o.w)
                  /\ (o.op \in {"rank", "select"} => s[o.v] # {})
                  /\ (o.op = "rank" => o.k \in s[o.v])
+                 /\ (o.op = "select" => o.x < Cardinality(s[o.v]))
 
 ISetEval(o, s) ==
   LET A == s[o.v]  C == s[o.w]  KS == RangeOf(o.ks)
